@@ -83,6 +83,9 @@ func goType(t TypeInfo) (reflect.Type, error) {
 		if err != nil {
 			return nil, err
 		}
+		if !keyType.Comparable() {
+			return nil, fmt.Errorf("cannot create Go type for CQL type %s: %v can not be the key of a Go map", t, keyType)
+		}
 		return reflect.MapOf(keyType, valueType), nil
 	case TypeVarint:
 		return reflect.TypeOf(*new(*big.Int)), nil
